@@ -72,6 +72,11 @@ func c01PutCancel() {
 					owner[v] = pt
 					args[j] = v
 				}
+				if len(args) == 1 && simrt.Chance(1, 4) {
+					// one value that happens to be a slice (a row, a tuple): it is ONE value
+					args[0] = []interface{}{pt.vals[0], "row"}
+					simrt.Probe("value_of_slice_type")
+				}
 				puts = append(puts, pt)
 				ctx, cancel := context.WithCancel(context.Background())
 				if willCancel[i] {
@@ -113,7 +118,23 @@ func c01PutCancel() {
 			if err != nil {
 				return
 			}
-			got = append(got, v.(int))
+			switch x := v.(type) {
+			case int:
+				got = append(got, x)
+			case []interface{}:
+				n, ok := 0, false
+				if len(x) == 2 && x[1] == "row" {
+					n, ok = x[0].(int)
+				}
+				if !ok {
+					simrt.Failf("C01.invented-value", "the consumer read %#v, which nobody put", v)
+					return
+				}
+				got = append(got, n)
+			default:
+				simrt.Failf("C01.invented-value", "the consumer read %#v, which nobody put (a row put as one value must arrive as that one value)", v)
+				return
+			}
 			if simrt.Chance(1, 3) {
 				if err := c.Commit(); err != nil {
 					simrt.Failf("C01.commit", "Commit failed: %v", err)
